@@ -131,10 +131,12 @@ func runRegistry(r *core.Run, cid string, K int) {
 		for j := 0; j < nreg; j++ {
 			who := w.pool[rng.Intn(len(w.pool))]
 			var chains, addrs []string
-			universe := []string{tssChain, "ghost-chain"}
+			// besides the real counterparties: names that merely LOOK like them (other letter case, one character
+			// more or less) - valid identifiers of other chains, which confer nothing for the real ones
+			universe := []string{tssChain, "ghost-chain", strings.ToUpper(tssChain), tssChain + "2"}
 			for _, o := range s.W.Nodes {
 				if o != n {
-					universe = append(universe, o.Name)
+					universe = append(universe, o.Name, o.Name, strings.ToUpper(o.Name), strings.ToUpper(o.Name[:1])+o.Name[1:], o.Name[:len(o.Name)-1], o.Name+"x")
 				}
 			}
 			nc := 1 + rng.Intn(3)
